@@ -418,8 +418,48 @@ def atom_base(fl, target):
     return at.args[0]
 
 
+def instrument_file(ix, R):
+    """6.instrument.perm: an instrument file's rows are re-ordered by descending wavelength; the noise and the bin widths
+    that go with a wavelength are picked with the SAME permutation (they are handed to a FluxBinner, which is given the
+    re-ordered grid)."""
+    site = 'taurex/instruments/instrumentfile.py::InstrumentFile.__init__'
+    f = ix.func(site)
+    fl = mkflow(ix, site, forward_attrs=True)
+    stmt = 'noise and bin widths of an instrument file are re-ordered with the same argsort as its wavelength grid'
+    tbl = code(fl, 'self._spectrum')
+    T = None
+    for e in fl.of('store'):
+        if fmt(fl, e.target) == 'self._spectrum':
+            T = e.value
+    if T is None:
+        R.error('6.instrument.perm', 'PERM', site, stmt, 'the loaded table is not stored in self._spectrum', loc=f.loc())
+        return
+    perm = spec(fl, 'argsort(T[:, 0])[::-1]', {'T': T})
+    cols = {}
+    for e in fl.of('store'):
+        a = atom_of(fl, e.value)
+        if a is not None and a.head == 'idx' and len(a.args) == 3 and fl.tab.equal(a.args[0], T) and isinstance(a.args[2], RF) \
+                and a.args[2].const() is not None:
+            cols.setdefault(int(a.args[2].const()), []).append((e, a.args[1]))
+    why = []
+    final_wl = fl.conv.env.get('@self._wlgrid')
+    if final_wl is None or not fl.tab.equal(final_wl, spec(fl, 'T[:, 0][p]', {'T': T, 'p': perm})):
+        why.append('the wavelength grid ends as %s' % (fmt(fl, final_wl)[:100] if final_wl is not None else None))
+    for k in (1, 2):
+        for e, rowsel in cols.get(k, []):
+            if not (isinstance(rowsel, RF) and fl.tab.equal(rowsel, perm)):
+                why.append('%s takes column %d in %s order, not in the order of the sorted wavelength grid' % (
+                    unparse(e.node)[:60], k, 'file' if not isinstance(rowsel, RF) else fmt(fl, rowsel)[:40]))
+    if 1 not in cols:
+        R.error('6.instrument.perm', 'PERM', site, stmt, 'the noise column is not read as self._spectrum[rows, 1]', loc=f.loc())
+        return
+    R.check('6.instrument.perm', 'PERM', site, stmt, not why, key='; '.join(w[:90] for w in why), detail='; '.join(why), loc=f.loc())
+
+
 def run(ix, R):
     _run(ix, R)
+    with R.guard('6.instrument.perm', 'PERM', 'taurex/instruments/instrumentfile.py', 'instrument file'):
+        instrument_file(ix, R)
     from rules.common import memo_obligation
     memo_obligation(ix, R, 'M.memo', ['taurex/binning/'], 'the binners')
 
